@@ -282,6 +282,13 @@ def normalize(model):
     ngl = guards_to_loop_condition(model)
     if ngl:
         notes.append("%d endless loop(s) with leading break guards rewritten as while loops" % ngl)
+    ntw = inline_tail_workers(model, known, notes)
+    tail_touched = set()
+    if ntw:
+        # clean the callers that received a worker
+        for f in model.funcs.values():
+            if any(x["kind"] == "VarDecl" and str(x.get("id", "")).startswith("inl") for x in walk(f.body)) if f.body is not None else False:
+                tail_touched.add(f.key)
     cands = {}
     for key, f in model.funcs.items():
         if not f.static or f.name in known:
@@ -298,6 +305,7 @@ def normalize(model):
             continue
         cands[key] = f
     if not cands:
+        _cleanup_touched(model, tail_touched)
         return notes
     # address taken / recursion
     for f in model.funcs.values():
@@ -363,6 +371,12 @@ def normalize(model):
             notes.append("helper %s inlined into its callers" % g.name)
         else:
             notes.append("helper %s kept (a call site could not be replaced)" % g.name)
+    _cleanup_touched(model, touched | tail_touched)
+    model._callgraph = None
+    return notes
+
+
+def _cleanup_touched(model, touched):
     for k in touched:
         f = model.funcs.get(k)
         if f is None:
@@ -382,8 +396,131 @@ def normalize(model):
         for _ in range(4):
             if not fuse_repeated_tests(f):
                 break
+        if fold_pointer_null_tests(f):
+            propagate_copies(f)
     model._callgraph = None
-    return notes
+
+
+def inline_tail_workers(model, known, notes):
+    """A static worker that returns from inside a loop cannot be spliced in as a block.  Where a caller only post-processes the
+    worker's result - `T v = worker(args); <loop-free rest ending in return>` or `return worker(args);` as statements of the
+    caller's body - the worker's body takes the place of the call and every `return E` in it becomes `{ T v = E; <rest> }`
+    (continuation inlining).  Parameters are bound to fresh locals, so a literal flag argument specialises the copy."""
+    done = 0
+    for gk, g in list(model.funcs.items()):
+        if not g.static or g.name in known or g.body is None:
+            continue
+        rel = model.rel(g.file) or ""
+        if not rel.startswith(("src/", "include/")) or not _has_return_in_loop(g.body):
+            continue
+        if any(x["kind"] == "VarDecl" and x.get("storageClass") == "static" for x in walk(g.body)):
+            continue
+        if sum(1 for _ in walk(g.body)) > 1500:
+            continue
+        # not recursive, address not taken
+        if any(k_ == gk for f_ in model.funcs.values() for k_, _n in model.fn_refs(f_)):
+            continue
+        if any(x["kind"] == "CallExpr" and callee_ref(x) == g.name for x in walk(g.body)):
+            continue
+        sites = []
+        for f in model.funcs.values():
+            if f is g or f.body is None:
+                continue
+            for x in walk(f.body):
+                if x["kind"] == "CallExpr" and callee_ref(x) == g.name and model.resolve(f.unit, g.name) == gk:
+                    sites.append((f, x))
+        if not sites:
+            continue
+        ok_all = True
+        plans = []
+        for f, call in sites:
+            st = f.body.get("inner") or []
+            pos = None
+            for i, s_ in enumerate(st):
+                if any(y is call for y in walk(s_)):
+                    pos = i
+            if pos is None:
+                ok_all = False
+                break
+            s_ = st[pos]
+            rest = st[pos + 1:]
+            vd = None
+            if s_["kind"] == "ReturnStmt" and kids(s_) and strip(kids(s_)[0], casts=True) is call:
+                mode = "return"
+            elif s_["kind"] == "DeclStmt" and len(kids(s_)) == 1 and kids(kids(s_)[0]) and strip(kids(kids(s_)[0])[0], casts=True) is call:
+                mode = "decl"
+                vd = kids(s_)[0]
+                writes = [y for y in walk(f.body) if y["kind"] in ("BinaryOperator", "CompoundAssignOperator") and
+                          y.get("opcode", "").endswith("=") and y.get("opcode") not in ("==", "!=", "<=", ">=") and
+                          strip(kids(y)[0], casts=True).get("ref", {}).get("id") == vd.get("id")]
+                if writes or not rest or rest[-1]["kind"] != "ReturnStmt" or \
+                        any(y["kind"] in ("ForStmt", "WhileStmt", "SwitchStmt", "GotoStmt", "LabelStmt") or
+                            (y["kind"] == "DoStmt" and _const_value(kids(y)[1]) != 0) for r_ in rest for y in walk(r_)) or \
+                        sum(1 for r_ in rest for _ in walk(r_)) > 400:
+                    ok_all = False
+                    break
+            elif strip(s_, casts=True) is call and (g.type or "").strip().startswith(("void (", "void(")) and \
+                    not rest:
+                mode = "last"
+            else:
+                ok_all = False
+                break
+            if len(kids(call)) - 1 != len(g.params):
+                ok_all = False
+                break
+            plans.append((f, call, pos, mode, vd, rest))
+        if not ok_all:
+            continue
+        # two sites in the same caller would need re-planning after the first splice: leave those
+        if len({id(f) for f, *_ in plans}) != len(plans):
+            continue
+        for f, call, pos, mode, vd, rest in plans:
+            idmap = {}
+            decls = []
+            for p_, a_ in zip(g.params, kids(call)[1:]):
+                nid = _Ids.fresh(p_["id"])
+                idmap[p_["id"]] = nid
+                pv = _mk("VarDecl", [a_], name=p_.get("name"), id=nid, type=p_.get("type"), file=call.get("file"), line=call.get("line"),
+                         col=call.get("col"), init="c")
+                decls.append(_mk("DeclStmt", [pv], file=call.get("file"), line=call.get("line")))
+            body = _rename(g.body, idmap)
+
+            def cont(ret):
+                if mode != "decl":
+                    return ret
+                e = kids(ret)[0] if kids(ret) else None
+                vmap = {}
+                nvid = _Ids.fresh(vd["id"])
+                vmap[vd["id"]] = nvid
+                nv = dict(vd)
+                nv["id"] = nvid
+                nv["inner"] = [e] if e is not None else []
+                blk_rest = []
+                for r_ in rest:
+                    c_ = _rename(r_, vmap)
+                    blk_rest.append(c_)
+                return _mk("CompoundStmt", [_mk("DeclStmt", [nv], file=ret.get("file"), line=ret.get("line"))] + blk_rest,
+                           file=ret.get("file"), line=ret.get("line"))
+
+            def rewrite(n_):
+                ch = n_.get("inner")
+                if not ch:
+                    return
+                for i_, c_ in enumerate(ch):
+                    if c_["kind"] == "ReturnStmt":
+                        ch[i_] = cont(c_)
+                    else:
+                        rewrite(c_)
+            rewrite(body)
+            st = f.body["inner"]
+            f.body["inner"] = st[:pos] + decls + kids(body)
+            done += 1
+        del model.funcs[gk]
+        model.static_names.get(g.unit, set()).discard(g.name)
+        notes.append("worker %s (returns inside a loop) inlined into %d caller(s) with their continuation" % (g.name, len(plans)))
+    if done:
+        model._callgraph = None
+    return done
 
 
 def _stmt_parent(f, node):
@@ -1273,6 +1410,8 @@ def fold_pointer_null_tests(f):
 
     def decide(c):
         c = strip(c, casts=True)
+        if c["kind"] == "IntegerLiteral" and c.get("synthetic_const"):
+            return int(c["value"]) != 0
         if c["kind"] == "DeclRefExpr" and c["ref"].get("id") in known:
             return known[c["ref"]["id"]]
         if c["kind"] == "DeclRefExpr" and c["ref"].get("id") in intval:
@@ -1295,6 +1434,45 @@ def fold_pointer_null_tests(f):
                     return nonnull if c["opcode"] == "!=" else not nonnull
         return None
     changed = False
+    # a && b / a || b with one decided operand: the other operand decides (a pure decided operand has no effect to keep)
+    again = True
+    while again:
+        again = False
+        for x in walk(f.body):
+            ch = x.get("inner")
+            if not ch:
+                continue
+            for i, c in enumerate(ch):
+                c0 = c
+                par, pi = x, i
+                while c0["kind"] in ("ParenExpr", "ImplicitCastExpr") and kids(c0):
+                    par, pi = c0, 0
+                    c0 = kids(c0)[0]
+                if c0["kind"] == "BinaryOperator" and c0.get("opcode") in ("&&", "||"):
+                    a_, b_ = kids(c0)
+                    va, vb = decide(a_), decide(b_)
+                    keep = None
+                    if c0["opcode"] == "&&":
+                        if va is True:
+                            keep = b_
+                        elif vb is True and _pure_expr(a_):
+                            keep = a_
+                        elif (va is False) or (vb is False and _pure_expr(a_)):
+                            keep = _mk("IntegerLiteral", [], value="0", type="int", synthetic_const=True, file=c0.get("file"), line=c0.get("line"))
+                    else:
+                        if va is False:
+                            keep = b_
+                        elif vb is False and _pure_expr(a_):
+                            keep = a_
+                        elif (va is True) or (vb is True and _pure_expr(a_)):
+                            keep = _mk("IntegerLiteral", [], value="1", type="int", synthetic_const=True, file=c0.get("file"), line=c0.get("line"))
+                    if keep is not None:
+                        par["inner"][pi] = keep
+                        changed = True
+                        again = True
+                        break
+            if again:
+                break
     for x in walk(f.body):
         ch = x.get("inner")
         if not ch or x["kind"] != "CompoundStmt":
